@@ -236,6 +236,29 @@ def check_e2e(arc, frac):
     return None
 
 
+def check_repeat(rad, first_inside):
+    """The same arc text (a full circle given by I only) issued at two places in one print: the verdict depends
+    on where the tool is, not on the text."""
+    cfg = dict(E2E_CFG, geo={"probe": dict(type="RectangularRegion", x1=40, y1=30, x2=60, y2=50)})
+    w = World.restore(e2e_world(), cfg)
+    w.step(("ADD", "probe", "p"))
+    inside_start = (40 - rad, 42.0)          # the circle around (40, 42) reaches rad into the region
+    clear_start = (10.0, 10.0)
+    order = [inside_start, clear_start] if first_inside else [clear_start, inside_start]
+    cmd = "G3 I%s" % num(rad)
+    for k, (sx, sy) in enumerate(order):
+        w.step(("RAW", "G0 X%s Y%s" % (num(sx), num(sy))))
+        f = w.step(("RAW", cmd)).feeds[0]
+        hits = (sx, sy) == inside_start
+        if hits and f.cmd in f.fwd:
+            return ("C16 full circle %r issued at (%s, %s) reaches %s into the region but was forwarded (the same text was "
+                    "%s before at (%s, %s))" % (cmd, sx, sy, rad, "forwarded" if k else "not issued", order[0][0], order[0][1]))
+        if not hits and f.fwd != [cmd] and not f.closing:
+            return ("C16 full circle %r issued at (%s, %s) is clear of the region but was not forwarded verbatim: %r"
+                    % (cmd, sx, sy, f.result))
+    return None
+
+
 def _work(arg):
     kind, quick, lo, hi = arg
     out = dict(n=0, multi=0, viol=[], d2=0)
@@ -262,6 +285,15 @@ def _work(arg):
                 if len(out["viol"]) < 3 or (not is_d2 and len(out["viol"]) < 6):
                     out["viol"].append(dict(msg=msg, input=dict(kind="r", chord=[list(ch[0]), list(ch[1]), ch[2], ch[3]]),
                                             sig="R-form D2" if is_d2 else "R-form other", d2=is_d2))
+    elif kind == "e2e-repeat":
+        for rad in (2.5, 5.0, 10.0):
+            for first_inside in (False, True):
+                out["n"] += 1
+                out["multi"] += 1
+                msg = check_repeat(rad, first_inside)
+                if msg and len(out["viol"]) < 3:
+                    out["viol"].append(dict(msg=msg, input=dict(kind="repeat", rad=rad, first_inside=first_inside),
+                                            sig=msg[:30]))
     elif kind == "e2e-aligned":
         n = 0
         for (sx, sy) in STARTS:
@@ -313,7 +345,8 @@ def enumerate_inputs(ctx):
         step = max(1, n // 64)
         tasks += [(kind, q, i, i + step) for i in range(0, n, step)]
     tasks += [("e2e-aligned", q, i, i + 24) for i in range(0, 288, 24)]
-    tot = {"ij": [0, 0], "r": [0, 0], "e2e": [0, 0], "e2e-aligned": [0, 0]}
+    tasks += [("e2e-repeat", q, 0, 0)]
+    tot = {"ij": [0, 0], "r": [0, 0], "e2e": [0, 0], "e2e-aligned": [0, 0], "e2e-repeat": [0, 0]}
     viol = []
     d2 = 0
     for t, r in zip(tasks, _ordered(tasks)):
@@ -335,7 +368,8 @@ def enumerate_inputs(ctx):
                          dict(form="R", chord=list(next(iter(chords(q)))))],
                 parts=[dict(name="c16-ij", arcs=tot["ij"][0], multi_segment=tot["ij"][1]),
                        dict(name="c16-r", chords=tot["r"][0], r_form_d2_signature=d2),
-                       dict(name="c16-e2e", hook_runs=tot["e2e"][0], axis_aligned_with_omitted_zero_word=tot["e2e-aligned"][0])],
+                       dict(name="c16-e2e", hook_runs=tot["e2e"][0], axis_aligned_with_omitted_zero_word=tot["e2e-aligned"][0],
+                            same_text_at_two_places=tot["e2e-repeat"][0])],
                 violations=uniq)
 
 
@@ -354,6 +388,8 @@ def replay_input(payload):
     if i["kind"] == "r":
         c = i["chord"]
         return check_r((tuple(c[0]), tuple(c[1]), c[2], c[3]))[0]
+    if i["kind"] == "repeat":
+        return check_repeat(i["rad"], i["first_inside"])
     DECIMALS[0] = i.get("decimals", 12)
     try:
         return check_e2e(tuple(i["arc"]), i["frac"])
